@@ -270,9 +270,55 @@ class Unroller(ast.NodeTransformer):
         self.fn_nodes.append(node)
         self.generic_visit(node)
         node.body = self._dispatch_split(node.body, counts)
+        self._fold_local_dicts(node, counts)
         self.fn_nodes.pop()
         self.fn.pop()
         return node
+
+    def _fold_local_dicts(self, fn, counts):
+        """d = {"a": e1, "b": e2} bound once at the top level of the function, only ever read as d["a"] / d["b"] with
+        constant keys, and e1, e2 free of calls that change something (attribute reads, HasField / getattr tests,
+        conditional expressions): every d["a"] is e1.  The dict itself is dropped."""
+        for i, st in enumerate(list(fn.body)):
+            if not (isinstance(st, ast.Assign) and len(st.targets) == 1 and isinstance(st.targets[0], ast.Name) and counts.get(st.targets[0].id) == 1 and isinstance(st.value, ast.Dict)):
+                continue
+            name, d = st.targets[0].id, st.value
+            if not d.keys or not all(isinstance(k, ast.Constant) for k in d.keys):
+                continue
+
+            def pure(e):
+                for n in ast.walk(e):
+                    if isinstance(n, ast.Call):
+                        f = n.func
+                        if not ((isinstance(f, ast.Attribute) and f.attr in ("HasField", "get")) or (isinstance(f, ast.Name) and f.id in ("getattr", "hasattr", "len", "isinstance"))):
+                            return False
+                    if isinstance(n, (ast.Lambda, ast.NamedExpr, ast.Yield, ast.Await)):
+                        return False
+                return True
+
+            if not all(pure(v) for v in d.values):
+                continue
+            uses = [n for n in ast.walk(fn) if isinstance(n, ast.Name) and n.id == name and isinstance(n.ctx, ast.Load)]
+            subs = [n for n in ast.walk(fn) if isinstance(n, ast.Subscript) and isinstance(n.value, ast.Name) and n.value.id == name and isinstance(n.ctx, ast.Load) and isinstance(n.slice, ast.Constant)]
+            table = {k.value: v for k, v in zip(d.keys, d.values)}
+            if len(uses) != len(subs) or not subs or any(x.slice.value not in table for x in subs):
+                continue
+            # the values must still mean the same where they are used: nothing they read is assigned after the dict
+            read = {n.id for v in d.values for n in ast.walk(v) if isinstance(n, ast.Name)}
+            later_stores = {n.id for s2 in fn.body[i + 1 :] for n in ast.walk(s2) if isinstance(n, ast.Name) and isinstance(n.ctx, (ast.Store, ast.Del))}
+            if read & later_stores:
+                continue
+
+            class _Sub(ast.NodeTransformer):
+                def visit_Subscript(self_, n):
+                    self_.generic_visit(n)
+                    if isinstance(n.value, ast.Name) and n.value.id == name and isinstance(n.ctx, ast.Load) and isinstance(n.slice, ast.Constant):
+                        return ast.copy_location(copy.deepcopy(table[n.slice.value]), n)
+                    return n
+
+            fn.body = [s2 for s2 in fn.body if s2 is not st]
+            fn.body = [_Sub().visit(s2) for s2 in fn.body] or [ast.copy_location(ast.Pass(), st)]
+            self.count += 1
 
     def _dispatch_split(self, body, counts):
         """x = TABLE.get(key) (TABLE a constant dict of at most 8 entries whose values are names of classes / functions,
@@ -426,42 +472,98 @@ class Unroller(ast.NodeTransformer):
         return False
 
     def _simple_generator(self, call):
-        """the generator helper `self.g()` / `g()` of this class / module whose body only yields simple values, possibly
-        under if-statements (no loops, no other effects): the function def, else None"""
-        if not (isinstance(call, ast.Call) and not call.args and not call.keywords):
+        """(function def, {parameter: argument}) when `call` invokes a generator helper of this class / module that can
+        be inlined: simple arguments, a body made of assignments, calls, if / for / while, yields — no return, no nested
+        definitions, no try / with"""
+        if not isinstance(call, ast.Call) or any(isinstance(a, ast.Starred) for a in call.args) or any(k.arg is None for k in call.keywords):
             return None
         f = call.func
-        g = None
+        g, recv = None, None
         if isinstance(f, ast.Name):
             g = self.mod_funcs.get(f.id)
-            if g is not None and g.args.args:
-                return None
-        elif isinstance(f, ast.Attribute) and isinstance(f.value, ast.Name) and f.value.id in ("self", "cls") and self.cls and self.cls[-1] in self.classes:
+        elif isinstance(f, ast.Attribute) and isinstance(f.value, ast.Name) and self.cls and self.cls[-1] in self.classes and (f.value.id in ("self", "cls") or f.value.id == self.cls[-1]):
             g = self.classes[self.cls[-1]][1].get(f.attr)
-            if g is not None and (len(g.args.args) != 1 or g.args.args[0].arg != f.value.id or g.decorator_list):
+            recv = f.value.id
+        if g is None or g.args.vararg or g.args.kwarg or g.args.kwonlyargs or g.args.posonlyargs:
+            return None
+        decos = {ast.unparse(d) for d in g.decorator_list}
+        if decos - {"staticmethod", "classmethod"}:
+            return None
+        params = [a.arg for a in g.args.args]
+        bound = {}
+        if recv is not None and "staticmethod" not in decos:
+            if not params:
                 return None
-        if g is None or g.args.vararg or g.args.kwarg or g.args.kwonlyargs:
+            if "classmethod" in decos and recv == "self":
+                bound[params[0]] = ast.Call(func=ast.Name(id="type", ctx=ast.Load()), args=[ast.Name(id="self", ctx=ast.Load())], keywords=[])
+            else:
+                bound[params[0]] = ast.Name(id=recv, ctx=ast.Load())
+            params = params[1:]
+        if len(call.args) > len(params):
+            return None
+        for p_, a_ in zip(params, call.args):
+            bound[p_] = a_
+        for k in call.keywords:
+            if k.arg not in params or k.arg in bound:
+                return None
+            bound[k.arg] = k.value
+        defaults = dict(zip([a.arg for a in g.args.args][len(g.args.args) - len(g.args.defaults):], g.args.defaults)) if g.args.defaults else {}
+        for p_ in params:
+            if p_ not in bound:
+                if p_ not in defaults:
+                    return None
+                bound[p_] = defaults[p_]
+        if not all(_simple(v) or (isinstance(v, ast.Call) and ast.unparse(v) == "type(self)") for v in bound.values()):
             return None
 
-        def ok(stmts):
+        def ok(stmts, in_loop):
             for st in stmts:
-                if isinstance(st, ast.Expr) and isinstance(st.value, ast.Constant):
+                if isinstance(st, ast.Expr) and isinstance(st.value, ast.Yield):
+                    if st.value.value is None:
+                        return False
                     continue
-                if isinstance(st, ast.Expr) and isinstance(st.value, ast.Yield) and st.value.value is not None and _simple(st.value.value):
+                if isinstance(st, (ast.Assign, ast.AugAssign, ast.AnnAssign, ast.Expr, ast.Pass)):
+                    if any(isinstance(n, (ast.Yield, ast.YieldFrom, ast.Lambda, ast.NamedExpr)) for n in ast.walk(st)):
+                        return False
                     continue
-                if isinstance(st, ast.If) and not any(isinstance(n, (ast.Yield, ast.YieldFrom, ast.Call, ast.NamedExpr)) for n in ast.walk(st.test)) and ok(st.body) and ok(st.orelse):
+                if isinstance(st, ast.If):
+                    if any(isinstance(n, (ast.Yield, ast.YieldFrom, ast.NamedExpr)) for n in ast.walk(st.test)) or not ok(st.body, in_loop) or not ok(st.orelse, in_loop):
+                        return False
+                    continue
+                if isinstance(st, (ast.For, ast.While)):
+                    if st.orelse or not ok(st.body, True):
+                        return False
+                    continue
+                if isinstance(st, (ast.Continue, ast.Break)) and in_loop:
                     continue
                 return False
             return True
 
-        return g if ok(g.body) and any(isinstance(n, ast.Yield) for n in ast.walk(g)) else None
+        if not ok(g.body, False) or not any(isinstance(n, ast.Yield) for n in ast.walk(g)):
+            return None
+        return g, bound
 
-    def _inline_generator(self, node, g):
-        """for <target> in g(): BODY  ->  g's statements with every `yield v` replaced by BODY[target := v]"""
+    def _inline_generator(self, node, got):
+        """for <target> in g(args): BODY  ->  g's statements with every `yield v` replaced by BODY[target := v]
+        (parameters replaced by the arguments, g's locals renamed apart from the caller's)"""
+        g, bound = got
         if node.orelse or _has_loop_jump(node.body, (ast.Break, ast.Continue)):
             return None
         stores = _stores(node.body)
         counter = [0]
+        g_stores = {n.id for n in ast.walk(g) if isinstance(n, ast.Name) and isinstance(n.ctx, (ast.Store, ast.Del))}
+        if g_stores & set(bound):
+            return None  # a parameter is re-bound inside the generator
+        caller_names = set(self.fn[-1][2]) | set(self.fn[-1][1]) if self.fn else set()
+        rename = {n: ast.Name(id="%s_g" % n, ctx=ast.Load()) for n in g_stores if n in caller_names}
+
+        class _Ren(ast.NodeTransformer):
+            def visit_Name(self_, n):
+                if n.id in rename:
+                    return ast.copy_location(ast.Name(id=rename[n.id].id, ctx=n.ctx), n)
+                if n.id in bound and isinstance(n.ctx, ast.Load):
+                    return ast.copy_location(copy.deepcopy(bound[n.id]), n)
+                return n
 
         def conv(stmts):
             out = []
@@ -469,33 +571,61 @@ class Unroller(ast.NodeTransformer):
                 if isinstance(st, ast.Expr) and isinstance(st.value, ast.Constant):
                     continue
                 if isinstance(st, ast.Expr) and isinstance(st.value, ast.Yield):
-                    m = {}
-                    if not self.bind(node.target, st.value.value, m) or set(m) & stores:
-                        return None
+                    val = _Ren().visit(copy.deepcopy(st.value.value))
+                    m, pre = {}, []
+                    tgt = node.target
+                    if isinstance(tgt, ast.Tuple) and isinstance(val, ast.Tuple) and len(tgt.elts) == len(val.elts) and all(isinstance(t, ast.Name) for t in tgt.elts):
+                        for t, v in zip(tgt.elts, val.elts):
+                            if _simple(v) and t.id not in stores:
+                                m[t.id] = v
+                            else:
+                                pre.append(ast.copy_location(ast.Assign(targets=[ast.Name(id=t.id, ctx=ast.Store())], value=v, type_comment=None), st))
+                    elif isinstance(tgt, ast.Name):
+                        if _simple(val) and tgt.id not in stores:
+                            m[tgt.id] = val
+                        else:
+                            pre.append(ast.copy_location(ast.Assign(targets=[ast.Name(id=tgt.id, ctx=ast.Store())], value=val, type_comment=None), st))
+                    else:
+                        pre.append(ast.copy_location(ast.Assign(targets=[copy.deepcopy(tgt)], value=val, type_comment=None), st))
                     k = counter[0]
                     counter[0] += 1
-                    for s in node.body:
-                        s2 = _Beta().visit(_FoldAttr().visit(_Subst(m).visit(copy.deepcopy(s))))
+                    out += [ast.fix_missing_locations(p_) for p_ in pre]
+                    for s_ in node.body:
+                        s2 = _Beta().visit(_FoldAttr().visit(_Subst(m).visit(copy.deepcopy(s_))))
                         for n in ast.walk(s2):
                             n._uidx = (k,) + getattr(n, "_uidx", ())
                         out.append(s2)
                     continue
-                b, o = conv(st.body), conv(st.orelse)
-                if b is None or o is None:
-                    return None
-                out.append(ast.copy_location(ast.If(test=copy.deepcopy(st.test), body=b or [ast.copy_location(ast.Pass(), st)], orelse=o), st))
+                st2 = copy.deepcopy(st)
+                if isinstance(st2, (ast.If, ast.For, ast.While)):
+                    body, orelse = conv(st.body), conv(st.orelse)
+                    if body is None or orelse is None:
+                        return None
+                    if isinstance(st2, ast.If):
+                        st2.test = _Ren().visit(st2.test)
+                    elif isinstance(st2, ast.While):
+                        st2.test = _Ren().visit(st2.test)
+                    else:
+                        st2.target = _Ren().visit(st2.target)
+                        st2.iter = _Ren().visit(st2.iter)
+                    st2.body = body or [ast.copy_location(ast.Pass(), st)]
+                    st2.orelse = orelse
+                    out.append(st2)
+                else:
+                    out.append(_Ren().visit(st2))
             return out
 
         return conv(g.body)
 
     def visit_For(self, node):
         self.generic_visit(node)
-        g = self._simple_generator(node.iter)
-        if g is not None:
-            out = self._inline_generator(node, g)
+        got = self._simple_generator(node.iter)
+        if got is not None:
+            out = self._inline_generator(node, got)
             if out:
                 self.count += 1
-                return out
+                out = [self.visit(x) if isinstance(x, (ast.For, ast.If, ast.While)) else x for x in out]
+                return [y for x in out for y in (x if isinstance(x, list) else [x])]
         t = self.table(node.iter)
         if t is None:
             return node
@@ -602,6 +732,17 @@ class Unroller(ast.NodeTransformer):
             conds = [_FoldAttr().visit(_Subst(m).visit(copy.deepcopy(c))) for c in g.ifs]
             out.append((elt_of(m), conds))
         return out
+
+    def visit_DictComp(self, node):
+        """{k: v for .. in TABLE}  ->  the dict display with one entry per row (keys constant after substitution)"""
+        self.generic_visit(node)
+        pair = ast.Tuple(elts=[node.key, node.value], ctx=ast.Load())
+        fake = ast.ListComp(elt=pair, generators=node.generators)
+        items = self._comp_items(fake, lambda m: _FoldAttr().visit(_Subst(m).visit(copy.deepcopy(pair))))
+        if items is None or any(c for _e, c in items) or not all(isinstance(e.elts[0], ast.Constant) for e, _c in items):
+            return node
+        self.count += 1
+        return ast.copy_location(ast.Dict(keys=[e.elts[0] for e, _c in items], values=[e.elts[1] for e, _c in items]), node)
 
     def visit_ListComp(self, node):
         self.generic_visit(node)
